@@ -237,16 +237,25 @@ func framesKey(frames []string, n int) string {
 // of a stack-overflow trace (the recursion cycle, independent of where in the
 // cycle the limit was hit).
 func cycleKey(frames []string) string {
-	set := map[string]bool{}
+	// The functions of the recursion cycle occur again and again among the
+	// top frames; the leaf that happened to hit the limit occurs once.
+	count := map[string]int{}
 	for i, f := range frames {
-		if i >= 40 {
+		if i >= 45 {
 			break
 		}
-		set[f] = true
+		count[f]++
 	}
 	var ks []string
-	for k := range set {
-		ks = append(ks, k)
+	for k, n := range count {
+		if n >= 3 {
+			ks = append(ks, k)
+		}
+	}
+	if len(ks) == 0 {
+		for k := range count {
+			ks = append(ks, k)
+		}
 	}
 	sort.Strings(ks)
 	if len(ks) == 0 {
